@@ -80,11 +80,34 @@ func nullCompression() *protocol.CompressionMethod {
 	return protocol.CompressionMethods()[0]
 }
 
+// byteLens: the lengths a variable-length field takes. The quick tier uses the short list plus the largest
+// extra value (the top of the length prefix: a decoder that caps a field at "the usual size" shows only there) and
+// the value just above the longest usual one; the thorough tier uses everything.
 func byteLens(th bool, quick []int, more ...int) []int {
 	if th {
 		return append(append([]int(nil), quick...), more...)
 	}
-	return quick
+	out := append([]int(nil), quick...)
+	if len(quick) > 0 {
+		top := quick[len(quick)-1] + 1
+		out = append(out, top)
+	}
+	mx := -1
+	for _, m := range more {
+		if m > mx {
+			mx = m
+		}
+	}
+	if mx >= 0 {
+		dup := false
+		for _, q := range out {
+			dup = dup || q == mx
+		}
+		if !dup {
+			out = append(out, mx)
+		}
+	}
+	return out
 }
 
 // chExtOffset finds the start of the extensions block of a ClientHello body with the reference parser.
